@@ -298,7 +298,7 @@ NM g_root;
 NM g_kid[2];
 bool g_inv_event = false;  // a child or the root was (effectively) invalidated in the current cycle
 const TSValueTypeMetaData *shape_schema() { return SHAPE == 3 ? schemas().tsb : schemas().tsl2; }
-constexpr int N_OPKINDS = 5;  // none, write child i, invalidate child i, invalidate root, write the whole value
+constexpr int N_OPKINDS = SHAPE == 3 ? 5 : 4;  // none, write child i, invalidate child i, invalidate root, [TSB: write the whole value]
 TSOutputView out_kid(const TSOutputView &ov, int i) { return ov.indexed_child_at((std::size_t)i); }
 TSInputView in_kid(const TSInputView &iv, int i) { return iv.indexed_child_at((std::size_t)i); }
 void apply_op(int op, DateTime t) {
@@ -334,17 +334,10 @@ void apply_op(int op, DateTime t) {
     } else if (op == 4) {
         I64 v0 = verif_range("val", -VMAX, VMAX), v1 = verif_range("val", -VMAX, VMAX);
         Value a{Int{v0}}, b{Int{v1}};
-#if SHAPE == 3
         BundleBuilder bb{ValuePlanFactory::instance().type_for(schemas().tsb->value_schema)};
         bb.set("a", a.view());
         bb.set("b", b.view());
         Value whole = bb.build();
-#else
-        ListBuilder lb{ValuePlanFactory::instance().type_for(schemas().i64)};
-        lb.push_back(Int{v0});
-        lb.push_back(Int{v1});
-        Value whole = lb.build();
-#endif
         auto m = ov.begin_mutation(t);
         (void)m.copy_value_from(whole.view());
         verif_reach("whole_value_write");
@@ -404,39 +397,35 @@ I64 g_win[WN];
 bool g_pushed = false;   // an element was pushed in the current cycle (a second push is rejected by the runtime)
 DateTime g_push_t = MIN_DT;
 const TSValueTypeMetaData *shape_schema() { return TypeRegistry::instance().tsw(schemas().i64, WN, WMIN); }
-constexpr int N_OPKINDS = 4;  // none, push v, clear, invalidate
+constexpr int N_OPKINDS = 5;  // none, push v, clear, clear then push v, invalidate
+bool g_scope_used = false;  // the runtime accepts one push and one clear per evaluation time: one window mutation per cycle
 void apply_op(int op, DateTime t) {
     if (op == 0) return;
     auto ov = g_out->view(t);
-    if (op == 1) {
-        if (g_pushed) return;  // one window tick per evaluation time
-        I64 v = verif_range("val", -VMAX, VMAX);
-        Value val{Int{v}};
-        auto ow = ov.as_window();
-        auto m = ow.begin_mutation(t);
-        m.push(val.view());
-        if (g_count == WN) { for (int i = 1; i < WN; i++) g_win[i - 1] = g_win[i]; g_count--; verif_reach("window_rolled"); }
-        g_win[g_count++] = v;
-        g_pushed = true; g_push_t = t;
-        g_root.valid = true; g_root.lmt = t;
-        root_written();
-    } else if (op == 2) {
-        if (g_pushed) return;  // clear after a push in the same cycle is not exercised here
-        auto ow = ov.as_window();
-        auto m = ow.begin_mutation(t);
-        m.clear();
-        verif_reach("window_cleared");
-        g_count = 0;
-        g_root.valid = true; g_root.lmt = t;
-        root_written();
-    } else if (op == 3) {
+    if (op == 4) {
         bool r = invalidate(ov, t);
         ok_struct &= (r == g_root.valid);
         if (!g_root.valid) return;
         verif_reach("invalidated");
         g_root.valid = false; g_root.lmt = MIN_DT;
         root_invalidated();
+        return;
     }
+    if (g_scope_used) return;
+    g_scope_used = true;
+    auto ow = ov.as_window();
+    auto m = ow.begin_mutation(t);
+    if (op == 2 || op == 3) { m.clear(); g_count = 0; verif_reach("window_cleared"); }
+    if (op == 1 || op == 3) {
+        I64 v = verif_range("val", -VMAX, VMAX);
+        Value val{Int{v}};
+        m.push(val.view());
+        if (g_count == WN) { for (int i = 1; i < WN; i++) g_win[i - 1] = g_win[i]; g_count--; verif_reach("window_rolled"); }
+        g_win[g_count++] = v;
+        g_pushed = true; g_push_t = t;
+    }
+    g_root.valid = true; g_root.lmt = t;
+    root_written();
 }
 void check_all(DateTime T, bool idle) {
     (void)idle;
@@ -461,7 +450,7 @@ void check_all(DateTime T, bool idle) {
 }
 #define CHECK_ALL_HAS_IDLE 1
 #define HAS_CYCLE_RESET 1
-void cycle_reset() { g_pushed = false; }
+void cycle_reset() { g_pushed = false; g_scope_used = false; }
 #endif
 
 // ------------------------------------------------------------------------------------------------
@@ -471,6 +460,14 @@ NM g_root;
 bool g_live[NK];
 NM g_elem[NK];
 NM g_fld[NK][2];
+// a key erased and re-created within one cycle is resurrected with its element intact (documented runtime behaviour:
+// tests/cpp "TSD same-cycle resurrection does not reconstruct element storage")
+bool g_erased_now[NK];
+NM g_saved_elem[NK], g_saved_fld[NK][2];
+void forget(int k) {
+    if (g_live[k] && !g_erased_now[k]) { g_erased_now[k] = true; g_saved_elem[k] = g_elem[k]; g_saved_fld[k][0] = g_fld[k][0]; g_saved_fld[k][1] = g_fld[k][1]; }
+    g_live[k] = false; g_elem[k] = NM{}; g_fld[k][0] = NM{}; g_fld[k][1] = NM{};
+}
 const TSValueTypeMetaData *shape_schema() { return schemas().tsd_tsb; }
 constexpr int N_OPKINDS = 5;  // none, write field (k,f) (creating k), erase k, invalidate element k, clear
 void apply_op(int op, DateTime t) {
@@ -480,7 +477,7 @@ void apply_op(int op, DateTime t) {
     if (op == 4) {
         auto m = od.begin_mutation(t);
         m.clear();
-        for (int k = 0; k < NK; k++) { g_live[k] = false; g_elem[k] = NM{}; g_fld[k][0] = NM{}; g_fld[k][1] = NM{}; }
+        for (int k = 0; k < NK; k++) forget(k);
         g_root.valid = true; g_root.lmt = t;
         return;
     }
@@ -497,6 +494,10 @@ void apply_op(int op, DateTime t) {
         }
         if (!g_live[k]) verif_reach("key_added");
         else verif_reach("child_only_write");
+        if (!g_live[k] && g_erased_now[k]) {
+            verif_reach("key_resurrected_same_cycle");
+            g_elem[k] = g_saved_elem[k]; g_fld[k][0] = g_saved_fld[k][0]; g_fld[k][1] = g_saved_fld[k][1];
+        }
         g_live[k] = true;
         g_fld[k][f] = NM{true, t, v};
         g_elem[k].valid = true; g_elem[k].lmt = t;
@@ -506,7 +507,7 @@ void apply_op(int op, DateTime t) {
         bool r = m.erase(key.view());
         ok_struct &= (r == g_live[k]);
         if (g_live[k]) verif_reach("key_erased");
-        g_live[k] = false; g_elem[k] = NM{}; g_fld[k][0] = NM{}; g_fld[k][1] = NM{};
+        forget(k);
         g_root.valid = true; g_root.lmt = t;
     } else if (op == 3) {
         if (!g_live[k] || !g_elem[k].valid) return;
@@ -562,6 +563,8 @@ void check_all(DateTime T, bool idle) {
     }
 }
 #define CHECK_ALL_HAS_IDLE 1
+#define HAS_CYCLE_RESET 1
+void cycle_reset() { for (int k = 0; k < NK; k++) g_erased_now[k] = false; }
 #endif
 
 #ifndef CHECK_ALL_HAS_IDLE
